@@ -268,3 +268,112 @@ class FormulaGen(object):
         node.density = (s, v, kind or 'i')
         node.text = node.text + '@' + s + kind
         return node
+
+
+# ---------------------------------------------------------------- optional instrumentation on private names
+# notes/ROBUSTNESS_GUIDE.md: whatever touches a PRIVATE part of the library (a name starting with '_', a nested
+# function found by name, a private attribute of a table entry) is optional instrumentation.  These helpers look
+# such things up without ever raising; when the source tree does not have them the reach / contract requirement that
+# hangs on them is waived (counter 'anchor_missing.<requirement counter>', see pvmon/cli.py) and a note says why.
+def waive(ctx, counters, why):
+    """Waive the requirement counters (exact names given to ctx.require) and note the reason."""
+    for c in counters:
+        ctx.count('anchor_missing.' + c)
+    ctx.note('%s; optional instrumentation skipped, requirement(s) %s waived' % (why, ', '.join(counters) or '-'))
+
+
+def private(ctx, owner, name, waived=()):
+    """getattr(owner, name) of a private library name, or None (requirements *waived* then) when this tree has none."""
+    obj = getattr(owner, name, None)
+    if obj is None:
+        waive(ctx, waived, 'private name %s.%s not found in this source tree (refactored)'
+              % (getattr(owner, '__name__', owner), name))
+    return obj
+
+
+def nested_codes(func, names):
+    """{name: code object} of the functions nested (at any depth) in *func* whose name is in *names*."""
+    out = {}
+
+    def walk(code):
+        for c in code.co_consts:
+            if hasattr(c, 'co_name'):
+                if c.co_name in names and c.co_name not in out:
+                    out[c.co_name] = c
+                walk(c)
+    code = getattr(func, '__code__', None)
+    if code is not None:
+        walk(code)
+    return out
+
+
+def watch_nested(ctx, reach, func, names, extra_waived=None):
+    """Reach counters 'reach.<name>' on functions nested in *func* (grammar parse actions).  A name that is not
+    there (actions renamed / moved to module level) has its reach requirement waived, together with the
+    counters extra_waived[name]."""
+    found = nested_codes(func, set(names)) if func is not None else {}
+    for name in names:
+        if name in found:
+            reach.codes[found[name]] = name
+        else:
+            waive(ctx, ['reach.' + name] + list((extra_waived or {}).get(name, ())),
+                  'nested function %r not found in %s (refactored source)' % (name, getattr(func, '__name__', func)))
+    return found
+
+
+def watch_private(ctx, reach, owner, name, label=None, waived=()):
+    """Reach counter 'reach.<label>' on the private function owner.<name>; waived when absent or not a function."""
+    label = label or name
+    obj = getattr(owner, name, None)
+    try:
+        if obj is None:
+            raise TypeError('absent')
+        reach.watch(obj, label)
+        return obj
+    except Exception:
+        waive(ctx, ['reach.' + label] + list(waived), 'private function %s.%s not found in this source tree (refactored)'
+              % (getattr(owner, '__name__', owner), name))
+        return None
+
+
+def pairs_structure(seq):
+    """True if *seq* is a formula structure: a list/tuple of (count, fragment) pairs, fragments being such
+    sequences again or anything else (an atom)."""
+    if not isinstance(seq, (list, tuple)):
+        return False
+    for item in seq:
+        if not isinstance(item, (list, tuple)) or len(item) != 2:
+            return False
+        if isinstance(item[1], (list, tuple)) and not pairs_structure(item[1]):
+            return False
+    return True
+
+
+def private_table_with_other_masses(name, factor_of):
+    """(table, scaled): a private PeriodicTable with mass and density loaded whose tabulated masses were multiplied
+    by factor_of(Z).  There is no public way to give a table other masses: the private attribute behind .mass is
+    written and the effect is verified through the public .mass of every element and isotope.  When that does not
+    work in this source tree a fresh, unscaled private table is returned with scaled = False (the caller then runs
+    the same cases with factor 1)."""
+    from periodictable import core, mass, density
+
+    def fresh(n):
+        T = core.PeriodicTable(n)
+        mass.init(T)
+        density.init(T)
+        return T
+    T = fresh(name)
+    ok = True
+    try:
+        for el in T:
+            k = factor_of(el.number)
+            for a in [el] + list(el):
+                before = a.mass
+                a._mass = a._mass * k
+                if not (a.mass == before * k):
+                    ok = False
+    except Exception:
+        ok = False
+    if ok:
+        return T, True
+    return fresh(name + '_unscaled'), False
